@@ -41,6 +41,8 @@ type txRunner struct {
 	nmsg  int
 	npkts int
 	scn   int
+
+	sizeOps int
 }
 
 func newInfo() *tds.Info {
@@ -202,7 +204,10 @@ func (r *txRunner) apply(op txOp) {
 	switch op.Op {
 	case "Size":
 		ps := op.Body + 8
-		body := encEnvChange([3]string{"\x04", strconv.Itoa(ps), strconv.Itoa(r.conn.PacketSize())})
+		// the old value a server names is informational: the right one, none, another size, not a number
+		r.sizeOps++
+		old := []string{strconv.Itoa(r.conn.PacketSize()), "", strconv.Itoa(r.conn.PacketSize() + 512), "abc", "0"}[r.sizeOps%5]
+		body := encEnvChange([3]string{"\x04", strconv.Itoa(ps), old})
 		if r.chanN > 0 {
 			// through the transport and the reader goroutine
 			r.mc.Feed(mkPacket(4, 1, r.ch.VerifChannelID(), 0, body))
